@@ -129,6 +129,7 @@ def gen_case(rng) -> dict[str, Any]:
             pts.append(x)
         reqs.append([rng.pick(["f", "f", "g", "o"]), rng.pick(["val", "val", "jac"]), [rat(t) for t in x]])
     case["reqs"] = reqs
+    case["reuse_array"] = rng.chance(0.5)
     del has_int
     return case
 
@@ -243,8 +244,18 @@ def run_impl(case):
     pb, fmap, log = build_problem(case)
     linear_fns = {n for n, fn in case["fns"].items() if fn["linear"]}
     answers, obs = [], []
+    # callers commonly reuse ONE array object and update it in place between requests
+    reuse = bool(case.get("reuse_array", False))
+    buf = None
     for name, kind, x in case["reqs"]:
         xa = np.array([float(Fraction(t)) for t in x])
+        if reuse:
+            if buf is None or buf.shape != xa.shape:
+                buf = xa.copy()
+            else:
+                buf[...] = xa
+            xa = buf
+        x_before = xa.copy()
         n0 = len(log)
         try:
             if kind == "val":
@@ -256,6 +267,10 @@ def run_impl(case):
         except Exception as e:  # noqa: BLE001
             answers.append("X:" + common.exc_class(e))
             obs.append({"exc": common.short_tb(e)})
+            break
+        if not np.array_equal(xa, x_before):
+            obs.append({"exc": f"the request {kind} {name} modified the caller's array in place: {x_before} -> {xa}"})
+            answers.append("X:arg-mutated")
             break
         calls = ";".join(f"{n}:{k}:{rats(p)}" for n, k, p in log) or "[]"
         answers.append(f"out={o} db={dump_db(pb)} calls={calls}")
@@ -407,6 +422,7 @@ def check_case(res: Result, case, model_answers, in_scope=True):
     res.evaluations += 1
     res.count("cfg=" + "".join(str(b) for b in case["cfg"]))
     res.count(f"reqs<={(len(case['reqs']) // 8 + 1) * 8}")
+    res.count("caller-reuses-array" if case.get("reuse_array") else "fresh-arrays")
     for fn in case["fns"].values():
         res.count("fn:" + ("linear" if fn["linear"] else "sparse" if fn["sparse"] else "dense"))
     if len(case["reqs"]) >= 3:
